@@ -275,6 +275,17 @@ def run_sidecar(shard, rec):
             d2 = copy.deepcopy(b["sidecar"])
             d2["faulty_col"] = {"HED": {"x": m["text"], "y": "Red"}}
             docs.append(d2)
+        # definitions declared in the sidecar, some of them breaking a definition rule (their issues are produced when
+        # the definitions are gathered and travel through the sidecar validator afterwards)
+        if "Definition" in gen.sp and "Def" in gen.sp:
+            bad_defs = ["(Definition/Bad1, (Def/Gooddef, Blue))", "(Definition/Bad/Name2, (Red))",
+                        "(Definition/Bad3, (Definition/Inner, (Red)))", "(Definition/Bad4/#, (Red))",
+                        "(Definition/Bad5, (Def-expand/Gooddef, (Red)))", "(Definition/Bad6, (Red), (Blue))",
+                        "(Definition/Bad7/#, (Label/#, Item-count/#))", "(Definition/Gooddef, (Green))"]
+            d3 = copy.deepcopy(b["sidecar"])
+            d3["defs_col"] = {"HED": dict([("good", "(Definition/Gooddef, (Red))")] +
+                                         [(f"k{j}", t) for j, t in enumerate(rng.sample(bad_defs, rng.randrange(0, 4)))])}
+            docs.append(d3)
         for doc in docs:
             case = dict(entry="sidecar", schema=v, doc=doc)
             lists = []
